@@ -1248,6 +1248,17 @@ class ModelBuilder:
                     self._create_scenario(project, value)
                 elif key == "extend":
                     pass  # Handle extensions later
+                elif key == "workinghours":
+                    # Project-wide working hours: the calendar of every resource
+                    # that has neither hours of its own nor a shift
+                    from scriptplan.core.working_hours import WorkingHours
+
+                    wh = project.attributes.get("workinghours")
+                    if not isinstance(wh, WorkingHours):
+                        wh = WorkingHours(project)
+                        project.attributes["workinghours"] = wh
+                    if isinstance(value, dict):
+                        wh.set_hours(value.get("days", []), value.get("ranges", []))
                 else:
                     with contextlib.suppress(ValueError, KeyError):
                         project[key] = value
